@@ -12,6 +12,9 @@ import (
 	"verifharness/gate"
 	"verifharness/sanitize"
 	"verifharness/stack"
+	"verifharness/supv"
+	"verifharness/rec"
+	supvmodel "go.amzn.com/lambda/supervisor/model"
 	"verifharness/walkfile"
 )
 
@@ -33,6 +36,7 @@ func main() {
 	seed := fs.Int("seed", 1, "seed for concretisation")
 	reps := fs.Int("reps", 2, "concrete inputs per abstract case")
 	quiet := fs.Bool("quiet", true, "silence the emulator's log")
+	fake := fs.Bool("fake", false, "supv: drive the fake supervisor")
 	_ = fs.Parse(os.Args[2:])
 	switch sub {
 	case "gatewalk":
@@ -67,6 +71,20 @@ func main() {
 		b, _ := json.MarshalIndent(rep, "", " ")
 		if err := os.WriteFile(*out, b, 0o644); err != nil {
 			die("write: %v", err)
+		}
+	case "supv":
+		stack.Quiet()
+		// -reps traces, written as <out>/<k>.ndjson; -fake validates the harness's fake supervisor instead
+		_ = os.MkdirAll(*out, 0o755)
+		for k := 0; k < *reps; k++ {
+			opt := supv.Options{Seed: int64(*seed)*1000 + int64(k), Procs: 2 + k%3}
+			if *fake {
+				opt.Fake = func(r *rec.Recorder) supvmodel.ProcessSupervisor { return stack.NewFakeSupWithRules(r) }
+			}
+			evs := supv.Run(opt)
+			if err := rec.WriteNDJSON(fmt.Sprintf("%s/%d.ndjson", *out, k), evs); err != nil {
+				die("write: %v", err)
+			}
 		}
 	case "run":
 		if *quiet {
